@@ -90,7 +90,7 @@ def shape_key(recipe):
     ds = ",".join(f"{d['name']}:{d['trans']['kind']}" for d in sorted(recipe["dstates"], key=lambda d: d["name"]))
     parts = [
         f"dstates[{ds}]",
-        f"cstate[{recipe['cstate']['trans'] if recipe['cstate'] else '-'}]",
+        f"cstate[{recipe['cstate']['trans'] if recipe['cstate'] else '-'}{('+b:' + recipe['cstate2']['trans']) if recipe.get('cstate2') else ''}]",
         f"dchoices[{','.join(sorted(c['name'] for c in recipe['dchoices']))}]",
         f"cchoices[{','.join(sorted(c['name'] for c in recipe['cchoices']))}]",
         f"filter[{recipe['filter']['kind'] if recipe['filter'] else '-'}]",
@@ -389,15 +389,15 @@ def oracle_c06(h: History):
         if len(s["result"]) != T:
             out.append(_viol("C06", "periods-differ", r, f"op {r['id']}: frame has {T} periods, solution {len(s['result'])}", plan))
             continue
-        grid_a = None
+        grids = None
         for b in h.ok("BUILD"):
-            if b["op"]["model"] == op["model_id"] and "a" in b.get("grids", {}):
-                grid_a = b["grids"]["a"]
+            if b["op"]["model"] == op["model_id"] and b.get("grids"):
+                grids = b["grids"]
                 break
         for t in range(T):
             rows, _ = frame_rows(fd, t)
             try:
-                on, v = ev.value_lookup(s["result"][t], t, rows, grid_a=grid_a)
+                on, v = ev.value_lookup(s["result"][t], t, rows, grids=grids)
             except LayoutError as e:
                 out.append(_viol("C06", "layout", r, f"op {r['id']}: {e}", plan))
                 break
@@ -454,6 +454,8 @@ def oracle_c08(h: History):
                 continue
             pr, pi, ppath = prev
             for c in cols:
+                if c not in ppath:
+                    continue  # differing column sets for equal arguments are a C09 matter (result-differs)
                 d = compare_arrays(ppath[c], path[c], f"column {c}")
                 if d:
                     out.append(
